@@ -52,7 +52,7 @@ func init() {
 					fmt.Sprintf("the skip point can move over a chunk that is not abandoned (exists-guard=%v abandoned-guard=%v)", okGet, okAb))
 				// scan starts at advanced+1 and steps by 1
 				phi, isPhi := unconv(a.Val).(*ssa.Phi)
-				okStart := false
+				okStart := BinV(token.ADD, IsLoadOf(adv), IsConstInt(1))(a.Val) // recomputed from the field on every iteration
 				if isPhi {
 					for _, e := range phi.Edges {
 						if BinV(token.ADD, IsLoadOf(adv), IsConstInt(1))(e) {
